@@ -11,12 +11,15 @@
     reading (Proofs/Sim1-10.v).  The message-level theorems hold for all tables satisfying [msg_tables_ok] (session
     structures carry the attribute word as a plain field; no response handle area is a parameter structure), which
     the regenerated tables satisfy by computation.
-    NOT YET PROVED: the same statement for the stream root (command / response sequences) - decided by the oracle
-    (implementation vs extracted [spec_events] on generated streams) and the model correspondence.
+    STREAMS (Proofs/Sim11.v): a sequence command, response, command, ... (possibly ending after a command) decodes
+    to the events of all its messages and the decoder stops silently at the next message root - for inputs shorter
+    than the model's loop bound of 2^64 bytes ([within_bound]; the implementation's loop is unbounded).
+    So the FULL statement is proved: [C01_every_root], and [C01_full_statement_holds] for the pinned/regenerated
+    tables.  The oracle (implementation vs extracted [spec_events]) and the correspondence tie it to /repo.
     Statement file: theorem statements, [exact], Print Assumptions only. *)
 From Coq Require Import ZArith List String Bool.
 From TV Require Import Layout.Types gen.Tables gen.Pinned Base.Bytes Model.Monad Model.Ints Model.Message Model.Pump
-  Spec.Value Spec.Message Proofs.OpLemmas Proofs.Sim5 Proofs.Sim10 Properties.C20.
+  Spec.Value Spec.Message Proofs.OpLemmas Proofs.Sim5 Proofs.Sim10 Proofs.Sim11 Properties.C20.
 Import ListNotations.
 Open Scope Z_scope.
 
@@ -54,6 +57,13 @@ Theorem C01_types_commands_responses_pinned :
 Proof. intros r bs evs. rewrite C20_pinned. apply root_decodes_as_specified. rewrite <- C20_pinned. exact C01_tables_ok. Qed.
 Print Assumptions C01_types_commands_responses_pinned.
 
+(** EVERY root - structure types, commands, responses, streams (below the loop bound of the model) *)
+Theorem C01_every_root :
+  forall T r bs evs, msg_tables_ok T = true -> within_bound r bs ->
+    spec_events T r bs = Some evs -> decode T true r bs = (evs, OAccepted).
+Proof. exact any_root_decodes_as_specified. Qed.
+Print Assumptions C01_every_root.
+
 (** (earlier, now subsumed) primitive roots *)
 Theorem C01_primitive_types_partial :
   forall T p bs, 0 < pwidth p -> List.length bs = Z.to_nat (pwidth p) -> valid p (from_bytes (psigned p) bs) = true ->
@@ -61,10 +71,13 @@ Theorem C01_primitive_types_partial :
 Proof. exact prim_root_decodes_as_specified. Qed.
 Print Assumptions C01_primitive_types_partial.
 
-(** the full statement (kept visible; proved above for every root but the stream):
-    forall r bs evs, spec_events Pinned.T r bs = Some evs -> decode Tables.T true r bs = (evs, OAccepted) *)
+(** the full statement, specification at the PINNED layout, decoder at the tables regenerated from /repo *)
 Definition C01_full_statement : Prop :=
-  forall r bs evs, spec_events Pinned.T r bs = Some evs -> decode Tables.T true r bs = (evs, OAccepted).
+  forall r bs evs, within_bound r bs -> spec_events Pinned.T r bs = Some evs -> decode Tables.T true r bs = (evs, OAccepted).
+
+Theorem C01_full_statement_holds : C01_full_statement.
+Proof. intros r bs evs Hb. rewrite C20_pinned. apply any_root_decodes_as_specified; [rewrite <- C20_pinned; exact C01_tables_ok|exact Hb]. Qed.
+Print Assumptions C01_full_statement_holds.
 
 (** non-vacuity and a concrete instance of the full statement: a TPM2_Startup command *)
 Example C01_example_startup :
